@@ -1350,6 +1350,8 @@ def op_eval_rule(ctx, R, ea, methods, deal, no_check):
     R.note('eval_ExprOp interpreted on %d constant operations' % n)
 
 MUTANTS = [
+    ('pool-membership-ignores-width', 'miasmx/expression/expression_eval_abstract.py', '        return self.pool_mem[k][0].get_size() == a.get_size()', '        return True', 'C06.D16'),
+
     ('bigger-lookup-next-address-unsimplified', 'miasmx/expression/expression_eval_abstract.py', "                ptr = expr_simp(ExprOp('+', ptr, ExprInt(uint32(v.size//8))))", "                ptr = ExprOp('+', ptr, ExprInt(uint32(v.size//8)))", 'C06.D14'),
     ('cond-const-arms-swapped', 'miasmx/expression/expression_eval_abstract.py', '            if cond.arg == 0:\n                return src2\n            else:\n                return src1\n', '            if cond.arg == 0:\n                return src1\n            else:\n                return src2\n', 'C06.D13'),
     ('shift-eval-count-masked', 'miasmx/expression/expression_eval_abstract.py', "    def eval_op_rshift(self, args, op_size, cast_int):\n        r = args[1]#&0x1F", "    def eval_op_rshift(self, args, op_size, cast_int):\n        r = args[1]&0x1F", 'C06.D5'),
